@@ -81,6 +81,14 @@ Theorem C15_float_total_in_order : forall z l x,
 Proof. exact (fun z l x => conj eq_refl (conj (ftotal_snoc z l x) ftotal_grouping_matters)). Qed.
 Print Assumptions C15_float_total_in_order.
 
+(* float results compare by IEEE comparison of their in-order totals: a total that is NaN - which +inf + -inf is,
+   although no case is NaN - is comparable with nothing (no fallback to the per-case vectors) *)
+Theorem C15_float_totals_may_be_incomparable :
+  fresults_pcmp false (fzero true) [infinity; neg_infinity] [PrimFloat.one] = None /\
+  fresults_pcmp true (fzero true) [PrimFloat.one] [infinity; neg_infinity] = None.
+Proof. exact incomparable_total. Qed.
+Print Assumptions C15_float_totals_may_be_incomparable.
+
 Example C15_nonvacuous :
   score_cmp 3 5 = Lt /\ error_cmp 3 5 = Gt /\ total (results_from [5; -8; 0; 6]) = 3 /\
   results_cmp error_cmp (results_from [1; 2]) (results_from [3]) = Eq.
